@@ -284,6 +284,27 @@ def check(case):
                     f"{max(pf[(as_feature, d)] for pf in per_fold_best)} targets in a training set; the best feature {F_args} accepts {F}")
             if not d:
                 classes.append("fallback-lower-is-better")
+            if trained and case.get("reload", True):
+                # history: the fold models are saved, loaded again and handed back for the same collections (--save_models /
+                # --load_models): the safety net must come to the same feature and the same direction
+                loaded = []
+                for j, m in enumerate(models):
+                    mp = tmp / f"fold{j}.pkl"
+                    guarded(m.save, mp, sig="Model.save")
+                    loaded.append(guarded(mokapot.load_model, mp, sig="load_model"))
+                _, _, psms2 = brewlib.build_datasets(case, tmp)
+                recorder.new_log("c07")
+                try:
+                    res2 = guarded(mokapot.brew, psms2, loaded, test_fdr=thr, folds=case["folds"], max_workers=case["workers"],
+                                   rng=case["rng"], allowed=brewlib.ALLOWED_BREW, sig="brew-reloaded-models")
+                finally:
+                    recorder.drop_log("c07")
+                S2 = [np.asarray(s_, dtype=float).ravel() for s_ in res2[2]]
+                same = all(len(a) == len(b) and np.allclose(a, b, rtol=1e-12, atol=0) for a, b in zip(S2, S))
+                require(same and [bool(x_) for x_ in res2[3]] == [bool(x_) for x_ in descs], "fallback-lost-after-reload",
+                        f"first run fell back to {as_feature} with descs={list(descs)}; the same models saved, re-loaded and handed back give "
+                        f"descs={list(res2[3])} and {'the same' if same else 'other'} scores")
+                classes.append("fallback-reproduced-with-reloaded-models")
         if trained and case["override"]:
             classes.append("override")
         if case.get("train_fdr") and case["train_fdr"] != thr:
